@@ -12,11 +12,23 @@
 from __future__ import annotations
 
 import ast
+import contextlib
 import itertools
 from typing import Callable, Dict, Iterable, List, Optional, Sequence, Tuple
 
 from sa.astx import dotted, src, walk_local
 from sa.source import AnalysisError
+
+
+@contextlib.contextmanager
+def sect(ctx, name: str):
+    """``with sect(ctx, "reader"):`` - ctx.section plus: a rule group that needs a value an earlier, unreadable group
+    did not produce is recorded as skipped (analysis error), never a crash and never a verdict."""
+    with ctx.section(name):
+        try:
+            yield
+        except NameError as e:   # includes UnboundLocalError
+            raise AnalysisError(f"skipped: depends on a rule group that could not be read ({e})")
 
 
 class Model:
